@@ -110,3 +110,14 @@ Proof.
   intro F. unfold c18_formatString. rewrite c18_formatString_n_cstr by apply c18_buffer_positive.
   split; [reflexivity | apply c18_cstr_nulfree].
 Qed.
+
+(* ---- the const char* argument: NUL-terminated *)
+Lemma c18_hasPrefix_c_iff : forall s x, c18_hasPrefix_c s x = true <-> exists t, s = c18_cstr x ++ t.
+Proof. intros. apply c18_hasPrefix_iff. Qed.
+
+Lemma c18_hasSuffix_c_iff : forall s x, c18_hasSuffix_c s x = true <-> exists t, s = t ++ c18_cstr x.
+Proof. intros. apply c18_hasSuffix_iff. Qed.
+
+Lemma c18_formatString_err_correct : forall F,
+  c18_formatString_err None = None /\ c18_formatString_err (Some F) = Some (c18_cstr F).
+Proof. intro F. split; [reflexivity|]. simpl. f_equal. apply c18_formatString_correct. Qed.
